@@ -58,6 +58,61 @@ def correspondence(ctx, drv, n_cases):
             d.append("array length")
         if d:
             ctx.disagreement("fast_SIS-tape:" + ";".join(d)[:300], dict(rep, diffs=d))
+    generated_model(ctx, [resq for resq in reqs[0::2]], metas)
+
+
+def generated_model(ctx, reqs, metas):
+    """the Lean code GENERATED from fast_SIS, _process_trans_SIS_Markov, _find_next_trans_SIS_Markov, _process_rec_SIS_
+    and myQueue (harness/pyevent2lean.py -> Gen/FastSISGen.lean), run by its own driver on the same scripted
+    exponentials as the implementation.  Compared: the expovariate-rate trace, times / S / I (array mode on the same
+    draws), the transmission list and every node's infection and recovery times (full-data mode)."""
+    import fcntl, subprocess, os, json, pyevent2lean
+    lean = common.LEAN
+    os.makedirs(os.path.join(lean, ".audit"), exist_ok=True)
+    with open(os.path.join(lean, ".audit", "genes.lock"), "w") as lock:
+        fcntl.flock(lock, fcntl.LOCK_EX)
+        try:
+            _, errors = pyevent2lean.regenerate(which=("fsis",))
+        except Exception as e:
+            errors = {"translator": "crashed: %r" % e}
+        if errors:
+            ctx.disagreement("generated-fast_SIS:translation", dict(entry="fast_SIS", errors=errors))
+            return
+        p = common.lake(["build", "driverfs"])
+    if p.returncode != 0:
+        ctx.disagreement("generated-fast_SIS:build", dict(entry="fast_SIS", log="\n".join(
+            l for l in (p.stdout + p.stderr).splitlines() if "error" in l)[:1500]))
+        return
+    exe = os.path.join(lean, ".lake", "build", "bin", "driverfs")
+    data = "\n".join(json.dumps(r, separators=(",", ":")) for r in reqs) + "\n"
+    q = subprocess.run([exe], input=data, capture_output=True, text=True)
+    lines = q.stdout.splitlines()
+    if q.returncode != 0 or len(lines) != len(reqs):
+        raise RuntimeError("driverfs crashed: " + q.stderr[-1000:])
+    for (rep, full, plain, c), line in zip(metas, lines):
+        g = json.loads(line)
+        ctx.count("fast_SIS:generated-model-runs")
+        if not g.get("ok"):
+            ctx.disagreement("generated-fast_SIS-error", dict(rep, generated=g))
+            continue
+        d = []
+        if g["trace"] != full["trace"]:
+            d.append("expovariate rate trace")
+        if plain["ok"] and (plain["times"] != g["times"] or plain["cols"] != [g["S"], g["I"]]):
+            d.append("arrays")
+        if full["transmissions"] != g["trans"]:
+            d.append("transmissions")
+        # node histories of the implementation = alternating infection / recovery times of the generated run
+        inf = {u: ts for u, ts in g["infection_times"]}
+        rec = {u: ts for u, ts in g["recovery_times"]}
+        for u, h in enumerate(full["history"]):
+            ti = [t for t, s_ in h if s_ == "I"]
+            tr_ = [t for t, s_ in h[1:] if s_ == "S"]
+            if ti != inf.get(u, []) or tr_ != rec.get(u, []):
+                d.append("node %d infection/recovery times" % u)
+                break
+        if d:
+            ctx.disagreement("generated-fast_SIS-tape:" + ";".join(d), dict(rep, diffs=d))
 
 
 def sis_master(G, nodes, tau, gamma, ew, nw, infs, T):
